@@ -15,15 +15,17 @@ _m(
     "NON-TRIVIAL when the shift is non-integer with upsample_factor >= 2 and inside the sub-pixel domain guards, or some "
     "component of s exceeds half the image size, or the image is not square; distinct = SHA-1 of the canonical JSON of the case.",
     [
-        "integer shifts: |error| <= 1e-6 px (numpy, float64; clean-tree maximum 2e-11).  The torch estimator builds its "
+        "integer shifts: |error| <= 1e-6 px (numpy, float64; maximum on the repaired tree 6e-11).  The torch estimator builds its "
         "upsampling kernels in float32 regardless of input dtype, so 'exact' is asserted as <= 0.02/up px for float64 input and "
-        "<= 0.3/up px for float32 input when up > 2 (measured maxima 1.3e-3/up and 2.8e-2/up over 24 000 cases), 1e-6 for up <= 2",
+        "<= 0.3/up px for float32 input when up > 2 (measured maxima <= 0.046 of those values over 245 000 cases), 1e-6 for up <= 2",
         "sub-pixel shifts: |error| <= 1/up per axis (0.5 px for up = 1), asserted only inside the domain of two-stage "
         "registration, decided from the inputs alone: (a) the textbook 3-point parabola through every near-maximal pixel of "
         "the exact float64 correlation lies within 0.15 px of the true peak, (b) the peak's curvature matrix (second moments of "
-        "the power spectrum) bounds the per-axis refinement bias by 0.10 sampling steps.  Outside that domain (about half of "
-        "the raw random fields, ~0 of the symmetric-spectrum fields) only the aligned-image/returned-shift consistency and the "
-        "centred-cell range are asserted.  Clean-tree maximum inside the domain: 0.2/up",
+        "the power spectrum) bounds the per-axis refinement bias by 0.06 sampling steps.  Outside that domain (~30% of the "
+        "sub-pixel cases, nearly all of them raw random fields or multi-blob images) only the aligned-image/returned-shift "
+        "consistency and the centred-cell range are asserted.  Measured maxima inside the domain over 245 000 cases: "
+        "upsampled stage 0.05/up (both estimators); coarse-only stage 0.06 px numpy, 0.28 px torch (bounded by 0.25 + 0.15 "
+        "by construction: half-pixel rounding plus guard (a))",
         "float32 torch inputs carry no pedestal (a pedestal of 2 on unit contrast costs ~2 upsampled px at up=64 in float32: "
         "rounding, not a convention error)",
         "max_shift: for sub-pixel shifts the disc edge stays >= 2.5 px beyond the true shift (closer, the pixel nearest to "
